@@ -42,7 +42,8 @@ META = {
     "design_ref": "5.7 C03",
 }
 
-INVARIANTS = ["TypeOK", "LengthConsistent", "RoundTrip", "CarriesMonotone", "RejectJustified", "OpenIsOutOfScope"]
+INVARIANTS = ["TypeOK", "LengthConsistent", "RoundTrip", "CarriesMonotone", "RejectJustified", "OpenIsOutOfScope",
+              "SequencePayloadOK"]
 ALL_KINDS = ["STARTUP", "OPTIONS", "AUTH_RESPONSE", "CREDENTIALS", "QUERY", "PREPARE", "EXECUTE", "BATCH", "REGISTER",
              "REVISE_REQUEST"]
 SMALL_KINDS = ["STARTUP", "OPTIONS", "AUTH_RESPONSE", "CREDENTIALS", "PREPARE", "REGISTER", "REVISE_REQUEST"]
@@ -54,10 +55,10 @@ def runs(ctx):
     big = {"QUERY", "EXECUTE", "BATCH"}
     if ctx.quick:
         return [("all kinds: set/unset lattice x variants 2 (second alphabet elements) and 3 (zero / empty edge values); frame options full (small kinds) / pairwise (QUERY, EXECUTE, BATCH)",
-                 dict(Families=set(ALL_KINDS), FullValues=False, FullFrame=set(SMALL_KINDS), VarSet={2, 3}, Small=True))]
+                 dict(Families=set(ALL_KINDS) | {"SESSION"}, FullValues=False, FullFrame=set(SMALL_KINDS), VarSet={2, 3}, Small=True))]
     return [
         ("all kinds: set/unset lattice x 3 variants (incl. zero / empty edge values); full frame-option lattice except EXECUTE, BATCH (pairwise); all value lists / batch shapes",
-         dict(Families=set(ALL_KINDS), FullValues=False, FullFrame=set(ALL_KINDS) - {"EXECUTE", "BATCH"}, VarSet={1, 2, 3}, Small=False)),
+         dict(Families=set(ALL_KINDS) | {"SESSION"}, FullValues=False, FullFrame=set(ALL_KINDS) - {"EXECUTE", "BATCH"}, VarSet={1, 2, 3}, Small=False)),
         ("QUERY, PREPARE, BATCH: every option over unset + its whole alphabet, pairwise frame options",
          dict(Families={"QUERY", "PREPARE", "BATCH"}, FullValues=True, FullFrame=set(), VarSet={2}, Small=False)),
         ("EXECUTE: every option over unset + its whole alphabet, pairwise frame options",
@@ -84,6 +85,32 @@ def nontrivial(st):
     return st["expect"] != "frame" or n_options(c) > 0
 
 
+def run_sequence(ctx, steps, groups, per_family):
+    """one statement object executed len(steps) times through the real session layer; every frame against its own state"""
+    statement = None
+    done = []
+    for st in steps:
+        case = st["c"]
+        try:
+            if statement is None:
+                statement = wb.make_statement(case["seq"], case)
+            got = wb.session_frame(statement, st)
+        except Exception as ex:                      # a broken driver must not crash the harness
+            got = ("raised", type(ex).__name__)
+        keys, got = wb.judge_request(st, got)
+        done.append(st)
+        fam = per_family.setdefault("session sequence (%s)" % case["seq"]["stmt"], {"frame": 0, "reject": 0, "open": 0})
+        fam["frame"] += 1
+        ctx.evaluations += 1
+        ctx.traces_validated += 1
+        ctx.nontrivial(case_key(case))
+        if ctx.evaluations % 4001 == 1:
+            ctx.sample({"sequence": case["seq"], "pv": case["pv"], "kind": case["kind"], "frames": sorted(st["alts"])[:1],
+                        "real": got[1].hex() if got[0] == "frame" else got[1]})
+        for k in keys or ():
+            groups.setdefault(("sequence",) + tuple(k[1:]) if k[0] == "frame" else ("sequence",) + tuple(k), []).append((dict(st, sequence=list(done)), got))
+
+
 def run(ctx):
     groups = {}            # group key -> list of (state, got)
     per_family = {}
@@ -103,8 +130,15 @@ def run(ctx):
             return
         if not any(s["expect"] != "seed" for s in states):
             raise tlc.MachineryError("vacuity: action Next never taken in run %s" % label)
+        sequences = {}
         for st in states:
-            if st["expect"] == "seed":
+            if st["expect"] != "seed" and "seq" in st["c"]:
+                q = st["c"]["seq"]
+                sequences.setdefault((st["c"]["pv"], q["stmt"], q["own"], tuple(q["calls"])), []).append(st)
+        for skey in sorted(sequences):
+            run_sequence(ctx, sorted(sequences[skey], key=lambda s: s["c"]["seq"]["pos"]), groups, per_family)
+        for st in states:
+            if st["expect"] == "seed" or "seq" in st["c"]:
                 continue
             case = st["c"]
             key = case_key(case)
@@ -153,8 +187,9 @@ def run(ctx):
             raise tlc.MachineryError("vacuity: no conforming-frame case for %s" % fam)
     if not any(c["reject"] for c in per_family.values()) or not any(c["open"] for c in per_family.values()):
         raise tlc.MachineryError("vacuity: reject / open expectation never enumerated")
-    witnesses = ["Witness_Reject"] if ctx.quick else ["Witness_Reject", "Witness_Open", "Witness_Alternatives", "Witness_IntFlags"]
-    wconst = dict(Families={"PREPARE", "STARTUP", "BATCH"}, FullValues=False, FullFrame=set(), VarSet={1}, Small=True)
+    witnesses = ["Witness_Reject"] if ctx.quick else ["Witness_Reject", "Witness_Open", "Witness_Alternatives", "Witness_IntFlags",
+                                                      "Witness_Sequence"]
+    wconst = dict(Families={"PREPARE", "STARTUP", "BATCH", "SESSION"}, FullValues=False, FullFrame=set(), VarSet={1}, Small=True)
     for w in witnesses:
         wcfg = tlc.write_cfg(os.path.join(ctx.scratch, w + ".cfg"), constants=wconst, invariants=[w], deadlock=False)
         wres = tlc.check_model("WireRequests", wcfg, ctx.scratch, timeout=600, env=JVM)
@@ -184,10 +219,19 @@ def run(ctx):
     for gkey in sorted(groups, key=lambda g: (-len(groups[g]), g)):      # the deviation with most cases first
         members = groups[gkey]
         pvs = sorted({st["c"]["pv"] for st, _ in members})
-        st, got = min(members, key=lambda m: (n_options(m[0]["c"]), m[0]["c"]["pv"], case_key(m[0]["c"])))
+        st, got = min(members, key=lambda m: (m[0]["c"].get("seq", {}).get("pos", 0), n_options(m[0]["c"]), m[0]["c"]["pv"],
+                                              case_key(m[0]["c"])))
         sig = ":".join(gkey) + "@" + wb.pv_set(pvs)
         case = st["c"]
-        if gkey[0] == "frame":
+        if gkey[0] == "sequence":
+            q = case["seq"]
+            what = ("step %d of a sequence of executions of ONE %s statement through Session._create_response_future deviates at %s "
+                    "on %s: the frame must carry the statement's own payload %s merged with THIS call's %s only (earlier calls "
+                    "passed payload choices %s); %d cases, smallest: %s pv=%s real=%s conforming=%s"
+                    % (q["pos"], q["stmt"], ":".join(gkey[1:]), wb.pv_set(pvs), q["ownp"], q["callp"], q["calls"][:q["pos"] - 1],
+                       len(members), case["kind"], case["pv"], got[1].hex() if got[0] == "frame" else "raised " + got[1],
+                       [bytes(a).hex() for a in sorted(st["alts"])][:1]))
+        elif gkey[0] == "frame":
             what = ("%s frames deviate from the protocol layout at %s (%s) on %s; %d cases, smallest: %s pv=%s options=%s "
                     "frame_options=%s: real=%s conforming=%s"
                     % (case["kind"], gkey[1], gkey[2], wb.pv_set(pvs), len(members), case["kind"], case["pv"],
@@ -201,7 +245,9 @@ def run(ctx):
                     "options=%s frame_options=%s" % (gkey[1], gkey[2], wb.pv_set(pvs), len(members), case["pv"],
                                                      case["o"], case["fo"]))
         ctx.violation(what, replay={"state": st, "cases": len(members), "versions": pvs}, signature=sig)
-    ctx.assumptions += ["v6 = v5 layout (no separate document)",
+    wb.close_sessions()
+    ctx.assumptions += ["session-layer sequences: consistency ONE, fetch size 5000, client timestamps off; run over the simulation substrate",
+                        "v6 = v5 layout (no separate document)",
                         "DSE_V1/DSE_V2 layouts as documented by the driver itself",
                         "map entries (STARTUP options, credentials, custom payload) may be written in any order",
                         "value alphabets of 2-3 elements per field; numbers below 2^31 or given as 16-bit limbs"]
@@ -209,7 +255,16 @@ def run(ctx):
 
 def replay(ctx, obj):
     st = obj["state"]
-    keys, got = wb.judge_request(st)
+    if "sequence" in st:                                 # re-run the whole sequence on one fresh statement object
+        statement, keys, got = None, None, None
+        for step in st["sequence"]:
+            if statement is None:
+                statement = wb.make_statement(step["c"]["seq"], step["c"])
+            keys, got = wb.judge_request(step, wb.session_frame(statement, step))
+            print("step %s: own=%s this call=%s -> %s" % (step["c"]["seq"]["pos"], step["c"]["seq"]["ownp"], step["c"]["seq"]["callp"],
+                                                         "as specified" if not keys else "DEVIATES %s" % (keys,)))
+    else:
+        keys, got = wb.judge_request(st)
     print("case: kind=%s pv=%s options=%s frame_options=%s" % (st["c"]["kind"], st["c"]["pv"], st["c"]["o"], st["c"]["fo"]))
     print("expect=%s conforming=%s" % (st["expect"], [bytes(a).hex() for a in sorted(st["alts"])]))
     print("real  =%s" % (got[1].hex() if got[0] == "frame" else "raised " + got[1]))
